@@ -45,6 +45,18 @@ TRUSTED = [
     "translator T1 harness/props/c01_t1.py (ast templates of _initialize/_insert/__new__; unknown shape = broken obligation)",
     "term evaluator of this module: `operator.<fn>` applied to the actual leaf elements",
 ]
+MANIFEST = {
+    "text": "Lean 4 theorems (structural induction over expression trees of any depth, operands finite / empty / unequal / "
+            "endless) about a hand-written executable model of StreamMeta's dunder builders, the iterators they create, "
+            "the metaclass loop over the REGENERATED operator table, and the elementwise decorator; tied to /repo by "
+            "translator T1 (table + insertion logic read from the source on every run, re-proved by `decide`) and a "
+            "differential run in which the symbolic terms of the model/spec are evaluated with python's operator.* on the "
+            "real elements",
+    "note": "Trusted: Lean kernel (axioms propext, Quot.sound only as reported in the evidence), translator T1, the term "
+            "evaluator and generators of harness/props/c01.py, CPython's operator dispatch and itertools.  Element "
+            "semantics is deliberately not modelled (free term algebra): the property is about wiring.",
+    "technique": "Lean 4 proof over an executable model + source-to-Lean table translator + symbolic differential correspondence",
+}
 ASSUMPTIONS = [
     "element semantics (Python numbers) is not modelled: the theorems are over a free term algebra, i.e. about wiring",
     "operands are Streams, non-Stream iterables or non-iterable scalars; classes registered with avoid_stream give NotImplemented",
@@ -1497,8 +1509,27 @@ def bcast_case(func, kind, xs, route="pos", n=8, **kw):
     return c
 
 
+def discover_bcast():
+    """ broadcast functions of lazy_math this module has no entry for (added later): take the decorator
+        parameters from the wrapper's closure and the default value pool """
+    try:
+        lm = AL().lazy_math
+    except BaseException:
+        return []
+    new = []
+    for name in getattr(lm, "__all__", []):
+        f = getattr(lm, name, None)
+        if callable(f) and name not in BFUNCS and getattr(f, "__closure__", None):
+            cells = dict(zip(f.__code__.co_freevars, [cl.cell_contents for cl in f.__closure__]))
+            if isinstance(cells.get("name"), str) and (cells.get("pos") is None or isinstance(cells.get("pos"), int)):
+                BFUNCS[name] = (cells["name"], cells["pos"], "default", 0, False)
+                new.append(name)
+    return new
+
+
 def generate_bcast(rng, tier, scale):
     cases = []
+    discover_bcast()
     names = sorted(BFUNCS)
     if scale == 1:
         for fn in names:
